@@ -55,5 +55,12 @@ ImplDocPages == {<<Cl(D1, <<>>, <<>>, <<M("m1", <<"int">>, <<"a">>, FALSE, d2)>>
                    [Fn(d3) EXCEPT !.name = "\"${m1}\"", !.args = <<"self", "a">>, !.impl = "m1"]>> : d2 \in {D0, D1, Dbul}, d3 \in {D1, Dnote, Dbul, Dfield}}
 \* a module without anything to document: the page is the title and the (empty) module directive
 EmptyPages == {<<>>}
-AllPages == EmptyPages \cup ImplDocPages \cup ModulePages \cup LateMemberPages \cup LongPages \cup MacroTestPages \cup TwoInnerPages \cup SinglePages \cup UndocPages \cup PairPages \cup ClassPages
+\* a class derived from a class of the same file whose attribute is documented by a sentence that spans two lines
+Dtwo == <<L(0, "a sentence that goes on w"), L(0, "on a second line w."), L(0, "")>>
+InheritPages == {<<Cl(D1, <<>>, <<>>, <<>>, <<At("at1", TRUE, Dtwo), At("at2", FALSE, D1)>>, <<>>), Cl(d, <<"n1">>, <<>>, <<>>, <<At("own", FALSE, D1)>>, <<>>), Fn(D1)>> : d \in {D1, Dnote}}
+\* a line of base classes longer than any line-length limit, in front of a doc that begins with a directive
+LongBases == <<"A_rather_long_base_class_name_1", "A_rather_long_base_class_name_2", "A_rather_long_base_class_name_3", "A_rather_long_base_class_name_4">>
+Dnote2 == <<L(0, ".. note::"), L(3, "body right below the marker w"), L(0, "")>>
+LongBasesPages == {<<Cl(d, LongBases, <<>>, <<>>, <<>>, <<>>)>> : d \in {Dnote, Dnote2, Ddir, D1}}
+AllPages == InheritPages \cup LongBasesPages \cup EmptyPages \cup ImplDocPages \cup ModulePages \cup LateMemberPages \cup LongPages \cup MacroTestPages \cup TwoInnerPages \cup SinglePages \cup UndocPages \cup PairPages \cup ClassPages
 =============================================================================
